@@ -269,7 +269,7 @@ func replayOnce(v Variant, rf *ReplayFile, timeout time.Duration) (*RunResult, s
 	return last, stderr.String(), code
 }
 
-var raceSiteRe = regexp.MustCompile(`github\.com/blevesearch/zapx/v16\.([^\s(]+(?:\([^)]*\))?[^\s(]*)\(`)
+var raceSiteRe = regexp.MustCompile(`github\.com/blevesearch/zapx/v16\.((?:\(\*?\w+\)\.)?\w+)`)
 
 // crashViolation classifies a dead worker: race report, Go fatal error, or
 // harness trouble.
